@@ -76,6 +76,9 @@ class C07(vlib.Check):
                 for mx in ((size, o + len(n)) if not thorough else (size, size - 1, o + len(n), o + len(n) - 1, SIZE_MAX)):
                     yield 'findl %s %s %s %d' % (cs, hx(hh), hx(n), mx)
                 yield 'has %s %s %s' % (cs, hx(hh), hx(n))
+        # --- operands of megabytes on a thread with a small stack
+        yield 'bigfind 1500000'
+        yield 'bigfind 300000'
         # --- exhaustive sweeps (digest mode)
         a3 = [0x61, 0x62, 0x41]
         for h in strings_upto(a3, 8 if thorough else 6):
@@ -119,10 +122,14 @@ class C07(vlib.Check):
         t = case.split()
         if t[0] == 'sweep':
             return t[1] != '.'
+        if t[0] in ('bigfind', 'shutdown'):
+            return True
         return t[2] not in ('.', '-') and t[3] not in ('.', '-')
 
     def shrink_candidates(self, case):
         t = case.split()
+        if t[0] in ('bigfind', 'shutdown'):
+            return
         if t[0] == 'sweep':
             h, alpha, lo, hi = t[1], t[2], int(t[3]), int(t[4])
             if hi - lo > 1:
